@@ -87,7 +87,7 @@ def match_finding(findings, prop, vrec, cfg):
     """A listed finding suppresses exactly the violations its trigger predicate describes."""
     v = vrec["v"]
     for f in findings.get("findings", []):
-        if f["property"] != prop or f["clause"] != v["clause"]:
+        if f["property"] != prop or (f["clause"] != v["clause"] and f["clause"] != "*"):
             continue
         ok = True
         for key, want in f.get("trigger", {}).items():
